@@ -1,6 +1,6 @@
 """Small vocabulary for guard-dominance (T1), must-pass-through (T2) and
 ordering (T3) rules over one function."""
-from .core import walk, show, const_of, last_field, truth_of, apath, is_null, AnalysisBroken
+from .core import walk, show, const_of, last_field, truth_of, apath, is_null, AnalysisBroken, same_expr
 
 
 def calls(fn, name, arg0_contains=None, argn=None):
@@ -136,3 +136,58 @@ def need_sites(sites, what, fn):
     if not sites:
         raise AnalysisBroken("anchor vanished: %s in %s" % (what, fn.name))
     return sites
+
+
+def var_defs(fn, name):
+    """assignment / initialiser sites of local `name`: [(site-pos, rhs-expanded)]"""
+    out = []
+    for s in fn.sites():
+        n = s.node
+        if n.get("k") == "asg" and n.get("op") == "=" and n["lhs"].get("k") == "var" and n["lhs"]["n"] == name:
+            out.append(((s.b, s.i), fn.expand(n["rhs"])))
+        elif n.get("k") == "decls":
+            for d in n["d"]:
+                if d["n"] == name and d.get("init") is not None:
+                    out.append(((s.b, s.i), fn.expand(d["init"])))
+    # assignments nested in conditions ((aio = f()) == NULL) are their own sub-nodes of a site
+    for b in fn.blocks.values():
+        for i, e in enumerate(b.elems):
+            for n in walk(fn.expand(e)):
+                if n.get("k") == "asg" and n.get("op") == "=" and n["lhs"].get("k") == "var" and n["lhs"]["n"] == name:
+                    if not any(p == (b.id, i) for p, _ in out):
+                        out.append(((b.id, i), fn.expand(n["rhs"])))
+    return out
+
+
+def reaching_defs(fn, name, pos):
+    """definitions of local `name` that can reach position pos without an intervening definition"""
+    defs = var_defs(fn, name)
+    dpos = {p for p, _ in defs}
+    out = []
+    for p, rhs in defs:
+        seen = fn.reach((p[0], p[1] + 1), blocked=lambda b, i, e: (b, i) in dpos and (b, i) != pos)
+        if pos in seen:
+            out.append((p, rhs))
+    return out
+
+
+def resolve(fn, e, pos, depth=0):
+    """value of e at pos with locals replaced by their unique reaching definition (casts dropped)"""
+    e = fn.expand(e)
+    while e is not None and e.get("k") == "cast":
+        e = fn.expand(e["e"])
+    if e is None or depth > 4:
+        return e
+    k = e.get("k")
+    if k == "var":
+        rd = reaching_defs(fn, e["n"], pos)
+        if len(rd) == 1 and rd[0][1] is not None and rd[0][0] != pos:
+            return resolve(fn, rd[0][1], rd[0][0], depth + 1)
+        return e
+    if k == "bin":
+        return dict(e, lhs=resolve(fn, e["lhs"], pos, depth + 1), rhs=resolve(fn, e["rhs"], pos, depth + 1))
+    if k == "un" and e.get("op") == "!":
+        return dict(e, e=resolve(fn, e["e"], pos, depth + 1))
+    if k == "asg" and e.get("op") == "=":
+        return resolve(fn, e["rhs"], pos, depth + 1)
+    return e
